@@ -66,7 +66,7 @@ func NewWriter(peerID uint64, subscriptions distributed.SubscriptionsState, loca
 		inflights: ackQueue,
 		encoder:   encoder.New(),
 		queue:     make(chan RoutedMessage, 25),
-		midPool:   newMIDPool(0, 65535),
+		midPool:   newMIDPool(1, 65535),
 	}
 }
 
